@@ -89,15 +89,25 @@ fn is_mutating(op: &Op) -> bool {
 }
 
 /// Apply `op` (plus the family's post-flush) and evaluate all oracles.
-fn step(w: &mut World, spec: &SeqSpec, shm: &Shm, op: &Op, check: bool) -> VResult<()> {
+/// `count = false`: the node belongs to another task (prefix replay): the oracles still run —
+/// some have side effects on the database (C11's reclamation opportunity flushes) and every
+/// exploration of a path must go through the same states — but nothing is counted.
+fn step(w: &mut World, spec: &SeqSpec, shm: &Shm, op: &Op, count: bool) -> VResult<()> {
     w.apply(op)?;
-    shm.add(C_TRANSITIONS, 1);
-    if spec.post_flush && is_mutating(op) {
-        w.apply(&Op::Flush)?;
+    if count {
         shm.add(C_TRANSITIONS, 1);
     }
-    if check {
-        w.check_all()?;
+    if spec.post_flush && is_mutating(op) {
+        w.apply(&Op::Flush)?;
+        if count {
+            shm.add(C_TRANSITIONS, 1);
+        }
+    }
+    w.check_all()?;
+    if count || spec.extra_param == 0 {
+        // the extra oracle (cursor programs) is read-only and expensive: owner only
+    }
+    if count {
         if let Some(extra) = spec.extra {
             extra(w, spec, shm)?;
         }
